@@ -166,6 +166,8 @@ PROPS['C03'] = {
         ('geo', 'c02.rs', r'^c03_k_simple_kernel_i16$', 'complete', 'quick'),
         ('geo', 'c02.rs', r'^c02_k_(line_coord|tri_pos|contains_tri_coord)$', 'complete', 'quick'),
         ('geo', 'c05.rs', r'^c05_k_winding_tri_(0_none|1_dupclose)$', 'bounded', 'quick'),
+        ('geo', 'c11.rs', r'^c03_k_hard_triple_', 'bounded', 'quick'),
+        ('geo', 'c02.rs', r'^c02_k_tri_intersects_coord$', 'complete', 'quick'),
     ],
     'twins': {
         'C03.V.kernel_orient2d_default': r'^c03_k_simple_kernel',
@@ -176,7 +178,7 @@ PROPS['C03'] = {
                 'c03_kernel: the default (integer) kernel body returns the exact sign under exact ring arithmetic ("products fit")'],
     'undecided_clauses': [
         'robust::orient2d returns the exact sign for all finite f64 (assumed)',
-        'K harnesses only cover the integer lattice; off-lattice f64 input is covered only by the uninterpreted-arithmetic argument',
+        'off the integer lattice the K harnesses only cover a menu of 13 ill-conditioned literal triples (real robust::orient2d executed, orientation + ring winding order), otherwise the uninterpreted-arithmetic argument',
         'convex hull decision points (qhull / graham) are under C08',
     ],
 }
@@ -232,13 +234,15 @@ PROPS['C08'] = {
     'title': 'Convex hull is the smallest convex polygon containing the input',
     'level': 'proof',
     'verus': [],
+    'kani_extra': ['--no-memory-safety-checks', '--no-overflow-checks', '--no-assertion-reach-checks'],
     'kani': [
         ('geo', 'c08.rs', r'^c08_k_(lex_cmp_and_least_index|swap_with_first_and_remove)$', 'complete', 'quick'),
         ('geo', 'c08.rs', r'^c08_k_partition_slice$', 'bounded', 'quick'),
+        ('geo', 'c08.rs', r'^c08_k_(quick|graham)_hull_(menu_|finding_|equidistant)', 'bounded', 'quick'),
     ],
     'trusted': ['helpers only: lex_cmp / least_index / least_and_greatest_index (4 lattice points, complete), swap_with_first_and_remove (all indices of a 4-slice), partition_slice (slices <= 5, any threshold predicate)'],
     'undecided_clauses': [
-        'the hull postcondition itself (closed, counter-clockwise, strictly convex, vertices are inputs, contains all inputs) for quick_hull / graham_hull / trivial_hull: CBMC runs out of memory or time on sort_unstable_by and the recursive hull_set even for 3-4 symbolic points (harnesses c08_k_trivial_hull_3, c08_k_quick_hull_4, c08_k_graham_hull_4 are kept in contracts/kani/geo/c08.rs but are not registered); Verus cannot take the iterator chains',
+        'the hull postcondition (closed, counter-clockwise, strictly convex, vertices are inputs, contains all inputs, by exact orientation) is decided for quick_hull and graham_hull only on a MENU of 6 literal point sets (duplicates, collinear runs, interior points), each written from 3 start points; for symbolic point sets CBMC runs out of memory or time on sort_unstable_by and the recursive hull_set even with 3-4 points (harnesses c08_k_trivial_hull_3, c08_k_quick_hull_4, c08_k_graham_hull_4 kept, not registered)',
         'minimum_rotated_rect (trigonometry)',
     ],
 }
@@ -335,7 +339,7 @@ PROPS['C07'] = {
     'verus': [],
     'kani_extra': ['--no-memory-safety-checks', '--no-overflow-checks', '--no-assertion-reach-checks'],
     'kani': [
-        ('geo', 'c07.rs', r'^c07_k_point_point_row$', 'bounded', 'quick'),
+        ('geo', 'c07.rs', r'^c07_k_(point_point_row|line_string_contains_point_axis)$', 'bounded', 'quick'),
         ('geo', 'c02.rs', r'^c02_k_(line_coord|line_line)$', 'complete', 'quick'),
         ('geo', 'c07.rs', r'^c07_k_point_axis_line$', 'bounded', 'thorough'),
     ],
